@@ -24,10 +24,12 @@ def cases(tier, seed):
     return D.spec_cases(tier, seed, None, 330, 4400, "c02")
 
 
-def compare(p, want, got, strat):
+def compare(p, want, got, strat, exhausted=True):
+    """exhausted=False: the sampler returned as many sequences as were requested, so it may have more; then only
+    sequences that should not exist can be concluded, not missing ones"""
     viol = []
     extra = [k for k in got if k not in want]
-    missing = [k for k in want if k not in got]
+    missing = [k for k in want if k not in got] if exhausted else []
     if extra:
         import json
         seq = json.loads(extra[0])
@@ -40,7 +42,7 @@ def compare(p, want, got, strat):
                      "all_missing": not got,
                      "msg": "%s exhausted with %d sequences but %d valid sequences were never returned, e.g. %s"
                             % (strat, sum(got.values()), len(missing), missing[0][:300])})
-    multi = [(k, got[k], want[k]) for k in got if k in want and got[k] != want[k]]
+    multi = [(k, got[k], want[k]) for k in got if k in want and (got[k] != want[k] if exhausted else got[k] > want[k])]
     if multi:
         k, g, w = multi[0]
         viol.append({"kind": "multiplicity", "strategy": strat, "more": g > w,
@@ -67,7 +69,10 @@ def run_case(case):
         counters["raised"] = 1
     else:
         got = D.seq_counter(r)
-        viol = compare(p, want, got, "IterateSATGen")
+        exhausted = len(r) < total + 25
+        if not exhausted:
+            counters["returned_as_many_as_requested"] = 1
+        viol = compare(p, want, got, "IterateSATGen", exhausted)
         counters["compared"] = 1
         counters["compared_empty" if not want else "compared_nonempty"] = 1
         counters["sequences_compared"] = total
